@@ -13,7 +13,8 @@ fn core() -> &'static Vec<Prog> {
         use Ord_::*;
         let mut v = Vec::new();
         let st = |loc, val, ord| Op::Store { loc, val, ord };
-        let aw = |loc, ord| Op::Await { loc, ord, spin_hint: false };
+        let aw = |loc, ord| Op::Await { loc, ord, spin_hint: false, min: 1 };
+        let awge = |loc, ord, min| Op::Await { loc, ord, spin_hint: false, min };
         let f = |ord| Op::Fence { ord };
         let cw = Op::CellWrite { c: 0 };
         let cr = Op::CellRead { c: 0 };
@@ -24,8 +25,10 @@ fn core() -> &'static Vec<Prog> {
                     v.push(Prog { nlocs: 1, pre: vec![], threads: vec![vec![], vec![cw, st(0, 1, so)], vec![aw(0, lo), acc]] });
                     // reader is the main thread
                     v.push(Prog { nlocs: 1, pre: vec![], threads: vec![vec![aw(0, lo), acc], vec![cw, st(0, 1, so)]] });
-                    // through an RMW by a third thread (release sequence)
-                    v.push(Prog { nlocs: 1, pre: vec![], threads: vec![vec![], vec![cw, st(0, 1, so)], vec![Op::FetchAdd { loc: 0, add: 64, ord: Rlx }], vec![aw(0, lo), acc]] });
+                    // through an RMW by a third thread (release sequence), every RMW ordering
+                    for &ro in &RMW_ORDS {
+                        v.push(Prog { nlocs: 1, pre: vec![], threads: vec![vec![], vec![cw, st(0, 1, so)], vec![Op::FetchAdd { loc: 0, add: 64, ord: ro }], vec![aw(0, lo), acc]] });
+                    }
                     // same-thread relaxed store after the release store (strong/weak gap)
                     v.push(Prog { nlocs: 1, pre: vec![], threads: vec![vec![], vec![cw, st(0, 1, so), st(0, 2, Rlx)], vec![aw(0, lo), acc]] });
                     for &so2 in &STORE_ORDS {
@@ -34,6 +37,17 @@ fn core() -> &'static Vec<Prog> {
                             v.push(Prog { nlocs: 2, pre: vec![], threads: vec![vec![], vec![cw, st(0, 1, so)], vec![aw(0, lo), st(1, 2, so2)], vec![aw(1, lo2), acc]] });
                         }
                     }
+                }
+            }
+        }
+        // the head publishes with an RMW, a relay RMW of another thread continues (or precedes) the release sequence,
+        // the consumer waits until both have happened (one spinner only); and the reference-count idiom: two owners
+        // decrement, the thread that sees both frees
+        for &r1 in &RMW_ORDS {
+            for &r2 in &RMW_ORDS {
+                for &lo in &LOAD_ORDS {
+                    v.push(Prog { nlocs: 1, pre: vec![], threads: vec![vec![], vec![cw, Op::FetchAdd { loc: 0, add: 1, ord: r1 }], vec![Op::FetchAdd { loc: 0, add: 64, ord: r2 }], vec![awge(0, lo, 65), cr]] });
+                    v.push(Prog { nlocs: 1, pre: vec![], threads: vec![vec![awge(0, lo, 192), cw], vec![cr, Op::FetchAdd { loc: 0, add: 64, ord: r1 }], vec![cr, Op::FetchAdd { loc: 0, add: 128, ord: r2 }]] });
                 }
             }
         }
@@ -101,7 +115,7 @@ pub fn prog_at(tier: u8, seed: u64, idx: usize) -> Prog {
                     let stored_elsewhere = (0..p.threads.len()).any(|u| u != th && p.threads[u].iter().any(|o| matches!(o, Op::Store { loc: l, .. } | Op::Swap { loc: l, .. } if *l == loc)));
                     let no_await_yet = !p.has_await();
                     if stored_elsewhere && no_await_yet && rng.chance(1, 2) {
-                        p.threads[th][i] = Op::Await { loc, ord, spin_hint: false };
+                        p.threads[th][i] = Op::Await { loc, ord, spin_hint: false, min: 1 };
                     }
                 }
             }
